@@ -32,6 +32,10 @@ CLAIMS = {
          "Decides for ALL inputs that every write entry point of the gripper (external table) driver refuses — returns a certainly non-nil error on every path — and never reaches the table-service client, and that the synthetic edge-id builder and parser agree on separator, arity and positions. Does not decide the row→vertex/edge synthesis or equivalence with the materialised graph.",
          "Trusted: go/types, go/cfg; static call resolution (no calls through function values on these paths).",
          "DESIGN.md §4 C15"),
+ "C20": ("SSA taint/format-context analysis of SQL text (go/ssa value flow, default deny, lexical context from constant formats)",
+         "Decides for ALL strings and every reachable sink of the psql and existing-sql drivers: the SQL text argument of each database/sql / sqlx call is built only from constants, numbers, allow-listed configuration fields and values validated for their lexical context; every other segment is reported with its origin and context. Client strings may reach the database only as bound parameters. Second-order flows (values read back from the database) are reported in the thorough tier. Does not decide server-side behaviour.",
+         "Trusted: go/ssa value flow as modelled (unknown constructs are treated as client-derived, i.e. default deny); allow-list of configuration fields in props/c20.go; database/sql never interpolates bound parameters into text.",
+         "DESIGN.md §4 C20"),
 }
 
 PENDING_REASON = "check not built yet in this round; see DESIGN.md §4 for the structural clause planned (static analysis)"
